@@ -1,3 +1,4 @@
 -- C02 — property theorems: index builder and create (C02Core), merge / unordered producers (C02Producers)
 import CoolerModel.Props.C02Core
 import CoolerModel.Props.C02Producers
+import CoolerModel.Props.C02Runs
